@@ -27,6 +27,7 @@ func init() {
 			{ID: "C04.R4", Min: 2, Doc: "read-only after hand-off: no store into the fields slice is reachable after an AddMaybe call; no element store / copy destination / append on values derived from parameters of declared kind LINE, NAME or FIELDS in table, route, destination, aggregator", Run: c04r4},
 			{ID: "C04.R6", Min: 1, Doc: "RW.Do decision table by path enumeration: the rule is skipped (argument returned unchanged) exactly when the not-regex matches, or — only when there is no not-regex — the not-substring is contained; otherwise regex rules return re.ReplaceAll(name, new) and literal rules bytes.Replace(name, old, new, Max)", Run: c04r6},
 			{ID: "C04.R7", Min: 9, Doc: "rewriter.New builds the rule from its arguments: Old/New/Not/Max and the byte forms old/new/not are the parameters themselves; re (notRe) is nil or the expression compiled from old[1:len-1] (not[1:len-1]), and is never reset once compiled", Run: c04r7},
+			{ID: "C04.R8", Min: 8, Doc: "the configured rule is the applied rule: old, new, not and max of a [[rewriter]] section and of the addRewriter command reach rewriter.New unchanged (no substituted defaults), and New stores them in the equally named fields (part of rule C20.R2 evaluated for this property as well)", Run: checkRewriterWiring},
 			{ID: "C04.R5", Min: 1, Doc: "RW.Do: values derived from the argument are only passed to Regexp.Match, bytes.Contains, Regexp.ReplaceAll, bytes.Replace/ReplaceAll (all non-mutating) or returned; no stores through it", Run: c04r5},
 		},
 	})
@@ -238,26 +239,36 @@ func c04r2(c *Check) {
 			}
 		})
 		c.Judge(okStores && nst >= 1, name+" only slot 0 rewritten", c.At(fields), fmt.Sprintf("%d store(s) into the fields, all `fields[0] = rw.Do(fields[0])`", nst), why)
-		// Route.Dispatch argument
+		// Route.Dispatch argument: wherever the table hands a line to a route (in the dispatcher itself or
+		// in a helper it calls), the value is a LINE: the single-space join of the fields, or the line
+		// parameter of DispatchAggregate — never the unsplit private copy
+		kinds := newKinds(c.P)
+		for _, g := range samePkgCallees(c.P, fn) {
+			g := g
+			allInstrs(g, func(in ssa.Instruction) {
+				call, ok := in.(*ssa.Call)
+				if !ok || calleeName(call.Common()) != nRouteDispatch {
+					return
+				}
+				kd := kinds.Of(call.Call.Args[0])
+				c.Judge(kd == KLine, name+" forwarded line = Join(fields, \" \")", c.At(call), "routes receive bytes.Join(fields, single space)", fmt.Sprintf("the line handed to the routes is not the single-space join of the (rewritten) fields on every path (kind %s): unusual whitespace or a stale name reaches the routes", kd))
+			})
+		}
+		// the join happens after the last rewrite
 		allInstrs(fn, func(in ssa.Instruction) {
-			call, ok := in.(*ssa.Call)
-			if !ok || calleeName(call.Common()) != nRouteDispatch {
+			j, ok := in.(*ssa.Call)
+			if !ok || calleeName(j.Common()) != "bytes.Join" || j.Call.Args[0] != ssa.Value(fields) {
 				return
 			}
-			arg := call.Call.Args[0]
-			okJoin := false
-			if j, ok := arg.(*ssa.Call); ok && calleeName(j.Common()) == "bytes.Join" && j.Call.Args[0] == fields && isSpaceBytes(j.Call.Args[1]) {
-				okJoin = true
-				// the join must happen after the last rewrite
-				allInstrs(fn, func(st ssa.Instruction) {
-					if s, ok := st.(*ssa.Store); ok {
-						if ia, ok := s.Addr.(*ssa.IndexAddr); ok && ia.X == fields && instrReachAvoiding(j, s, nil) {
-							okJoin = false
-						}
+			okAfter := isSpaceBytes(j.Call.Args[1])
+			allInstrs(fn, func(st ssa.Instruction) {
+				if s, ok := st.(*ssa.Store); ok {
+					if ia, ok := s.Addr.(*ssa.IndexAddr); ok && ia.X == ssa.Value(fields) && instrReachAvoiding(j, s, nil) {
+						okAfter = false
 					}
-				})
-			}
-			c.Judge(okJoin, name+" forwarded line = Join(fields, \" \")", c.At(call), "routes receive bytes.Join(fields, single space) computed after all rewrites", "the line handed to the routes is not the single-space join of the (rewritten) fields on every path: unusual whitespace or a stale name reaches the routes")
+				}
+			})
+			c.Judge(okAfter, name+" fields joined after the last rewrite", c.At(j), "no store into the fields can follow the join", "the line is assembled before a rewriter changes the name: routes receive the pre-rewrite name")
 		})
 		// AddMaybe receives the fields
 		allInstrs(fn, func(in ssa.Instruction) {
